@@ -65,6 +65,9 @@ pub const CAPTURE: &[Template] = &[
     Template { name: "two-user-tables-named-like-consecutive-ctes", position: "table", setup: "CREATE TABLE §(a, b); INSERT INTO § VALUES (1, 2), (2, 3), (3, 4); CREATE TABLE ¤(a, d); INSERT INTO ¤ VALUES (2, 70), (9, 90);", prql: "from § | sort a | take 3 | filter a > 1 | join side:left ¤ (==a) | select {§.a, m = ¤.d}", reference: "SELECT 2, 70 UNION ALL SELECT 3, NULL" },
     Template { name: "two-user-tables-named-like-consecutive-ctes-swapped", position: "table", setup: "CREATE TABLE ¤(a, b); INSERT INTO ¤ VALUES (1, 2), (2, 3), (3, 4); CREATE TABLE §(a, d); INSERT INTO § VALUES (2, 70), (9, 90);", prql: "from ¤ | sort a | take 3 | filter a > 1 | join side:left § (==a) | select {¤.a, m = §.d}", reference: "SELECT 2, 70 UNION ALL SELECT 3, NULL" },
     Template { name: "two-user-columns-named-like-consecutive-helpers", position: "column", setup: "CREATE TABLE t(a, §, ¤); INSERT INTO t VALUES (1, 50, 5), (3, 10, 7), (5, 30, 1);", prql: "from t | select {a, §, ¤} | sort {a + §} | take 2 | sort {a + ¤} | take 1 | select {§, ¤}", reference: "SELECT 30, 1" },
+    // a relation that needs an invented alias (second join of the same table) next to a user table of that name
+    Template { name: "user-table-named-like-invented-alias", position: "table", setup: "CREATE TABLE §(a, b); INSERT INTO § VALUES (1, 2), (3, 4); CREATE TABLE t(a, b); INSERT INTO t VALUES (1, 2), (3, 9);", prql: "from § | join t (§.a == t.a) | join t (§.b == that.b) | select {§.a, §.b}", reference: "SELECT 1, 2" },
+    Template { name: "user-table-named-like-invented-alias-joined-last", position: "table", setup: "CREATE TABLE §(a, b); INSERT INTO § VALUES (1, 2), (3, 4); CREATE TABLE t(a, b); INSERT INTO t VALUES (1, 2), (3, 9);", prql: "from t | join t (this.a == that.a) | join § (this.b == that.b) | select {§.a, §.b}", reference: "SELECT 1, 2" },
     // a helper name is handed to one of two same-named columns at a split, next to a user column of that name
     Template { name: "user-column-after-renamed-duplicate", position: "column", setup: "CREATE TABLE t(a, b); INSERT INTO t VALUES (1, 2), (3, 4), (5, 6); CREATE TABLE u(a, §); INSERT INTO u VALUES (1, 0), (3, 9), (5, 1);", prql: "from t | join u (==a) | select {t.a, u.a, u.§} | take 5 | filter § > 0", reference: "SELECT 3, 3, 9 UNION ALL SELECT 5, 5, 1" },
     Template { name: "user-column-before-renamed-duplicate", position: "column", setup: "CREATE TABLE t(a, b); INSERT INTO t VALUES (1, 2), (3, 4), (5, 6); CREATE TABLE u(a, §); INSERT INTO u VALUES (1, 0), (3, 9), (5, 1);", prql: "from t | join u (==a) | select {u.§, t.a, u.a} | take 5 | filter § > 0", reference: "SELECT 9, 3, 3 UNION ALL SELECT 1, 5, 5" },
